@@ -1,7 +1,7 @@
 (* T04 / CreateFile (Create; Write d; Close) in every state: new name, existing regular file (overwrite), existing
    directory, missing parent.  A successful call leaves, under the name, an entry whose recorded position designates
-   the member that carries exactly the bytes written (no hypothesis on the process identity: the corner
-   T02Counter.v (1) concerns the owner columns only). *)
+   the member that carries exactly the bytes written (the corner T02Counter.v (2), an existing regular file, concerns
+   the modification time only and is covered here). *)
 From Coq Require Import List NArith ZArith Bool Lia.
 From Coq Require Import ZifyN ZifyBool.
 Import ListNotations.
